@@ -1,4 +1,5 @@
 import H3.Lemmas.Iso
+import H3.Lemmas.IsoLift
 import H3.Props.C03
 /-! # C07 — faults confined to one request never harm the connection or other requests
 
@@ -381,41 +382,22 @@ theorem C07_connection_stays_open (cfg : Cfg) (hist : List HEv) (hs : StreamScop
 section Healthy
 open H3.ReqRecv H3.Props.C03
 
-/-- **C07 composed with C03** (`_partial`: two gaps against the full statement, both inherited from
-    C03 — see below).  A healthy stream `j` of such a history — its own events are: the peer delivers
-    `ps` (any chunking), then the application runs the documented receive pattern (head, then the
-    body loop and the trailers) — where the bytes delivered are, for the frame layer, a frame
-    sequence `toks` ended by FIN that is a valid message `U* H (U|D)* (H U*)?` within the size limit:
-    stream `j`'s application is given the head, then as body exactly the concatenation of the DATA
-    payloads of ITS stream, in order, each byte once, then the end of the body, then the trailers
-    iff present; h3 resets nothing on it; the cell is empty and `close` was never called — whatever
-    happened on the other streams, in whatever interleaving with them.
-
-    Full statement: the same for EVERY order of `j`'s own deliveries and polls, with no hypothesis
-    about the frame layer.  Gaps: (1) `FrameSim` — that the `FrameStream` model hands the request
-    layer the frames of the bytes — is the hypothesis of `C03_lifted_to_chunks` (C02's subject; an
-    open proof obligation there, established per script by kernel evaluation, as in the example
-    below); (2) within stream `j` itself the deliveries precede the polls (C03's `documented`
-    pattern has the whole input in the source); polls of `j` that come before its bytes (`Pending`,
-    then resumed) are covered by `C07_neighbours_unaffected` (`j` sees what it would see alone)
-    and by the differential run, not by this theorem.  The interleaving with all OTHER streams is
-    unrestricted. -/
-theorem C07_healthy_stream_delivers_partial (cfg : Cfg) (hist : List HEv) (hs : StreamScoped cfg hist) (j : Nat)
+/-- From the outcome of the documented pattern over stream `j`'s own transport script (a statement
+    about `ReqRecv.documented`, C03's subject) to what `j`'s application observes inside the product,
+    under arbitrary interleaving with all other streams. -/
+theorem healthy_of_outcome (cfg : Cfg) (hist : List HEv) (hs : StreamScoped cfg hist) (j : Nat)
     (ps : List Peer) (fuel : Nat)
     (hj : proj j hist = ps.map .peer ++ [.call .head, .call (.body fuel)])
-    {R : FSt → TS → Prop} (sim : FrameSim fsSrc tokSrc R) (toks : List Tok)
-    (hR : R ({}, fsScript ps) (TS.ofToks toks .fin))
-    (pre mid post : List Tok) (h : ReqRecv.Bytes) (tr : Option ReqRecv.Bytes)
-    (hpre : ∀ t ∈ pre, isU t = true) (hmid : ∀ t ∈ mid, isUD t = true) (hpost : ∀ t ∈ post, isU t = true)
-    (htoks : toks = pre ++ .headers h :: (mid ++ (match tr with | none => [] | some t => .headers t :: post)))
-    (hwf : ∀ tok ∈ toks, TokWF tok ∧ HdrOk cfg.hdr.base tok) (hfuel : answers toks .fin + 2 ≤ fuel)
+    (h body : ReqRecv.Bytes) (tr : Option ReqRecv.Bytes)
+    (hdel : observe (documented cfg.role fsSrc cfg.hdr.base fuel { src := ({}, fsScript ps) }) =
+      { calls := [.head h, .body body, .bodyEnd, trObs tr], connError := none, streamReset := none })
     (hh : cfg.hdr.head h ≠ .tooBig) (htr : ∀ t, tr = some t → cfg.hdr.trailer t ≠ .tooBig) :
     ∃ rs : List Res,
       obsOf j (run cfg {} hist).2 =
         List.replicate ps.length .quiet ++
           [.ans (.res (.head h)),
            .body rs (some (.res (trRes tr)))] ∧
-      bodyBytes rs = payloads mid ∧ rs.getLast? = some .end_ ∧
+      bodyBytes rs = body ∧ rs.getLast? = some .end_ ∧
       ((run cfg {} hist).1.get j).rx.env.rst = none ∧
       (run cfg {} hist).1.cell = none ∧ (run cfg {} hist).1.closed = [] := by
   have hq := quiet_of_streamScoped cfg hist hs
@@ -423,16 +405,7 @@ theorem C07_healthy_stream_delivers_partial (cfg : Cfg) (hist : List HEv) (hs : 
   have hv := (hview j).1
   have hg : ({} : Conn).get j = ({} : Req) := rfl
   rw [hg] at hv
-  -- C03: the documented pattern over the chunks is the one over the frames, which delivers
-  have hlift := (C03_lifted_to_chunks fsSrc R sim cfg.role cfg.hdr.base ({}, fsScript ps) toks .fin fuel hR hwf hfuel).1
-  have hdel := C03_valid_message_delivered cfg.role cfg.hdr.base pre mid post h tr fuel hpre hmid hpost toks htoks
-    hwf hfuel
-  rw [← hlift] at hdel
-  have hdel' : observe (documented cfg.role fsSrc cfg.hdr.base fuel { src := ({}, fsScript ps) }) =
-      { calls := [.head h, .body (payloads mid), .bodyEnd, trObs tr]
-        connError := none, streamReset := none } := by
-    cases tr <;> exact hdel
-  obtain ⟨t1, t2, t3, t4, t5, t6⟩ := observe_delivered _ h (payloads mid) tr hdel'
+  obtain ⟨t1, t2, t3, t4, t5, t6⟩ := observe_delivered _ h body tr hdel
   -- the product's run of stream j alone is that trace
   have hdoc := run_documented cfg ps fuel h t1 hh (by
     intro t ht
@@ -452,6 +425,105 @@ theorem C07_healthy_stream_delivers_partial (cfg : Cfg) (hist : List HEv) (hs : 
   · have : ((run cfg {} hist).1.get j) = _ := hv.1
     rw [this, d3]
     exact t6
+
+/-- **C07 composed with C03, the frame-layer hypothesis gone.**  A healthy stream `j` of ANY
+    history in which no stream is told a connection-level error.  Its own transport events are: the
+    bytes `w = cs.flatten` of a valid message cut into non-empty chunks `cs` in ANY way, then FIN;
+    its application then runs the documented receive pattern (head, then the body loop and the
+    trailers).  "Valid message" is a statement about the wire bytes alone, through the reference
+    automaton of C02: over `w` it ends on a frame boundary and emits HEADERS `h`, DATA frames with
+    payloads `ds` (any number, any lengths, zero included), HEADERS `t` iff there are trailers
+    (`msgToks`; frames of unknown type anywhere leave no token).  Then — whatever happens on the
+    other streams (resets, STOP_SENDING, malformed or oversized messages, abandoned streams), in
+    whatever interleaving with them and with the driver's polls — `j`'s application is given: the
+    head `h`; as body exactly `ds.flatten`, the concatenation of the DATA payloads of ITS stream,
+    in order, each byte once; then the end of the body; then the trailers iff present; h3 resets
+    nothing on it; the cell is empty and `close` was never called.
+
+    Hypotheses that remain (none about the frame layer: `FrameSim` is discharged by
+    `C03_frame_layer_simulation`/`lift_exists` for every script): chunks are non-empty (`ScriptOK`,
+    a QUIC read never returns zero bytes); no DATA frame announces `usize::MAX` bytes (`NoRaw`; a
+    varint cannot); the header oracle accepts the two blocks within the limit (as C03's `HdrOk`: in
+    either position); the loop bound of the `body` call is at least the model's own `fsFuel`.
+    Still inherited from C03's `documented`: within stream `j` itself the deliveries precede the
+    polls — `C07_healthy_stream_delivers_polled` removes that. -/
+theorem C07_healthy_stream_delivers (cfg : Cfg) (hist : List HEv) (hs : StreamScoped cfg hist) (j : Nat)
+    (cs : List ReqRecv.Bytes) (fuel : Nat) (h : ReqRecv.Bytes) (ds : List ReqRecv.Bytes) (tr : Option ReqRecv.Bytes)
+    (hj : proj j hist = (cs.map Peer.chunk ++ [Peer.fin]).map StreamEv.peer ++ [.call .head, .call (.body fuel)])
+    (hne : ∀ b ∈ cs, b ≠ [])
+    (hmsg : H3.FS.run H3.FS.frameDec (.hdr []) cs.flatten = (.hdr [], msgToks h ds tr))
+    (hlen : ∀ d ∈ ds, d.length < H3.FS.USIZE_MAX)
+    (hH : ∀ b, b = h ∨ tr = some b → cfg.hdr.head b = .ok ∧ cfg.hdr.trailer b = .ok)
+    (hfuel : fsFuel ({}, cs.map H3.FS.Ev.chunk ++ [H3.FS.Ev.fin]) ≤ fuel) :
+    ∃ rs : List Res,
+      obsOf j (run cfg {} hist).2 =
+        List.replicate (cs.length + 1) .quiet ++
+          [.ans (.res (.head h)),
+           .body rs (some (.res (trRes tr)))] ∧
+      bodyBytes rs = ds.flatten ∧ rs.getLast? = some .end_ ∧
+      ((run cfg {} hist).1.get j).rx.env.rst = none ∧
+      (run cfg {} hist).1.cell = none ∧ (run cfg {} hist).1.closed = [] := by
+  have hb : FS.evBytes (cs.map H3.FS.Ev.chunk) = cs.flatten := evBytes_chunks cs
+  have hacc := chunked_outcome_fin_fuel cfg.role cfg.hdr.base (cs.map H3.FS.Ev.chunk) [] fuel
+    (onlyChunks_map cs) (scriptOK_chunks_fin cs hne)
+    (by rw [hb]; exact noRaw_of_msgToks _ _ h ds tr hmsg hlen)
+    (by
+      intro b hbm
+      rw [hb, hmsg] at hbm
+      obtain ⟨h1, h2⟩ := hH b (headers_mem_msgToks h ds tr b hbm)
+      simp [Hdr.base, h1, h2, HClass.base])
+    (by rw [hb, hmsg]) hfuel
+  rw [hb, hmsg, kindsOf_msgToks, spec_msgKinds] at hacc
+  simp only [H3.Spec.ReqSeq.Expect.accepts, List.mem_singleton] at hacc
+  rw [← fsScript_chunks_fin] at hacc
+  have hres := healthy_of_outcome cfg hist hs j (cs.map Peer.chunk ++ [Peer.fin]) fuel hj h ds.flatten tr hacc
+    (by rw [(hH h (Or.inl rfl)).1]; simp)
+    (by intro t ht; rw [(hH t (Or.inr ht)).2]; simp)
+  simpa using hres
+
+/-- **C07 composed with C03** (`_partial`: kept for the record; superseded by
+    `C07_healthy_stream_delivers`, which needs no hypothesis about the frame layer).  A healthy
+    stream `j` of such a history — its own events are: the peer delivers `ps` (any chunking), then
+    the application runs the documented receive pattern (head, then the body loop and the trailers)
+    — where the bytes delivered are, for the frame layer, a frame sequence `toks` ended by FIN that
+    is a valid message `U* H (U|D)* (H U*)?` within the size limit: stream `j`'s application is
+    given the head, then as body exactly the concatenation of the DATA payloads of ITS stream, in
+    order, each byte once, then the end of the body, then the trailers iff present; h3 resets
+    nothing on it; the cell is empty and `close` was never called — whatever happened on the other
+    streams, in whatever interleaving with them.
+
+    Gaps against the full statement: (1) `FrameSim` — that the `FrameStream` model hands the request
+    layer the frames of the bytes — is a hypothesis here (closed in `C07_healthy_stream_delivers`);
+    (2) within stream `j` itself the deliveries precede the polls (closed in
+    `C07_healthy_stream_delivers_polled`). -/
+theorem C07_healthy_stream_delivers_partial (cfg : Cfg) (hist : List HEv) (hs : StreamScoped cfg hist) (j : Nat)
+    (ps : List Peer) (fuel : Nat)
+    (hj : proj j hist = ps.map .peer ++ [.call .head, .call (.body fuel)])
+    {R : FSt → TS → Prop} (sim : FrameSim fsSrc tokSrc R) (toks : List Tok)
+    (hR : R ({}, fsScript ps) (TS.ofToks toks .fin))
+    (pre mid post : List Tok) (h : ReqRecv.Bytes) (tr : Option ReqRecv.Bytes)
+    (hpre : ∀ t ∈ pre, isU t = true) (hmid : ∀ t ∈ mid, isUD t = true) (hpost : ∀ t ∈ post, isU t = true)
+    (htoks : toks = pre ++ .headers h :: (mid ++ (match tr with | none => [] | some t => .headers t :: post)))
+    (hwf : ∀ tok ∈ toks, TokWF tok ∧ HdrOk cfg.hdr.base tok) (hfuel : answers toks .fin + 2 ≤ fuel)
+    (hh : cfg.hdr.head h ≠ .tooBig) (htr : ∀ t, tr = some t → cfg.hdr.trailer t ≠ .tooBig) :
+    ∃ rs : List Res,
+      obsOf j (run cfg {} hist).2 =
+        List.replicate ps.length .quiet ++
+          [.ans (.res (.head h)),
+           .body rs (some (.res (trRes tr)))] ∧
+      bodyBytes rs = payloads mid ∧ rs.getLast? = some .end_ ∧
+      ((run cfg {} hist).1.get j).rx.env.rst = none ∧
+      (run cfg {} hist).1.cell = none ∧ (run cfg {} hist).1.closed = [] := by
+  -- C03: the documented pattern over the chunks is the one over the frames, which delivers
+  have hlift := (C03_lifted_to_chunks fsSrc R sim cfg.role cfg.hdr.base ({}, fsScript ps) toks .fin fuel hR hwf hfuel).1
+  have hdel := C03_valid_message_delivered cfg.role cfg.hdr.base pre mid post h tr fuel hpre hmid hpost toks htoks
+    hwf hfuel
+  rw [← hlift] at hdel
+  have hdel' : observe (documented cfg.role fsSrc cfg.hdr.base fuel { src := ({}, fsScript ps) }) =
+      { calls := [.head h, .body (payloads mid), .bodyEnd, trObs tr]
+        connError := none, streamReset := none } := by
+    cases tr <;> exact hdel
+  exact healthy_of_outcome cfg hist hs j ps fuel hj h (payloads mid) tr hdel' hh htr
 
 end Healthy
 
@@ -658,6 +730,62 @@ example : ∃ rs : List Res,
     (by decide +kernel) [] [.data 0 [], .data 2 [[0xc1], [0xc2]], .unknown 0x21 []] [] [0xaa, 0xbb] none
     (by simp) (by decide) (by simp) rfl (by simp [toksS, TokWF, HdrOk, Hdr.base, srv, hdr₃, HClass.base])
     (by decide) (by decide) (by simp)
+end
+
+/-! `C07_healthy_stream_delivers` applies to stream 0 of the same three-stream history (stream 4 RESET
+    with code 7 inside a DATA payload, stream 8 a malformed head, driver polls in between): every
+    hypothesis is a decidable statement about stream 0's own twelve bytes — no frame-layer interface
+    is assumed.  `cs₀` is ONE cutting of these bytes; the theorem holds for every cutting. -/
+section
+open H3.ReqRecv
+def cs₀ : List ReqRecv.Bytes := [[0x01, 0x02, 0xaa, 0xbb, 0x00, 0x00, 0x00], [0x02, 0xc1], [0xc2, 0x21, 0x00]]
+
+example : H3.FS.run H3.FS.frameDec (.hdr []) cs₀.flatten = (.hdr [], msgToks [0xaa, 0xbb] [[], [0xc1, 0xc2]] none) := by
+  decide +kernel
+
+example : ∃ rs : List Res,
+    obsOf 0 (run srv {} (hist₃.take 20)).2 =
+      List.replicate 4 .quiet ++ [.ans (.res (.head [0xaa, 0xbb])), .body rs (some (.res .noTrailers))] ∧
+    bodyBytes rs = [0xc1, 0xc2] ∧ rs.getLast? = some .end_ ∧
+    ((run srv {} (hist₃.take 20)).1.get 0).rx.env.rst = none ∧
+    (run srv {} (hist₃.take 20)).1.cell = none ∧ (run srv {} (hist₃.take 20)).1.closed = [] :=
+  C07_healthy_stream_delivers srv (hist₃.take 20) (by decide +kernel) 0 cs₀ 20 [0xaa, 0xbb] [[], [0xc1, 0xc2]] none
+    (by decide +kernel) (by decide) (by decide +kernel) (by decide)
+    (by
+      intro b hb
+      rcases hb with rfl | hb
+      · exact ⟨by decide, by decide⟩
+      · cases hb)
+    (by decide)
+
+/-- the same bytes cut per byte on stream 0, with trailers `[0xab]` appended, neighbours as before -/
+def hist₄ : List HEv :=
+  [ chunk 4 [0x01, 0x02, 0xaa, 0xbb, 0x00, 0x05, 0x32], chunk 0 [0x01], chunk 8 [0x01, 0x01, 0xee], chunk 0 [0x02],
+    on 4 (.call .head), chunk 0 [0xaa], on 8 (.call .head), chunk 0 [0xbb], .drive, on 4 (.peer (.reset 7)),
+    chunk 0 [0x00], chunk 0 [0x02], on 4 (.call (.body 9)), chunk 0 [0xc1], chunk 0 [0xc2], chunk 0 [0x01], chunk 0 [0x01],
+    chunk 0 [0xab], on 0 (.peer .fin), .drive, on 0 (.call .head), on 8 (.call .data), on 0 (.call (.body 40)) ]
+
+example : ∃ rs : List Res,
+    obsOf 0 (run srv {} hist₄).2 =
+      List.replicate 12 .quiet ++ [.ans (.res (.head [0xaa, 0xbb])), .body rs (some (.res (.trailers [0xab])))] ∧
+    bodyBytes rs = [0xc1, 0xc2] ∧ rs.getLast? = some .end_ ∧
+    ((run srv {} hist₄).1.get 0).rx.env.rst = none ∧
+    (run srv {} hist₄).1.cell = none ∧ (run srv {} hist₄).1.closed = [] :=
+  C07_healthy_stream_delivers srv hist₄ (by decide +kernel) 0
+    [[0x01], [0x02], [0xaa], [0xbb], [0x00], [0x02], [0xc1], [0xc2], [0x01], [0x01], [0xab]] 40 [0xaa, 0xbb]
+    [[0xc1, 0xc2]] (some [0xab])
+    (by decide +kernel) (by decide) (by decide +kernel) (by decide)
+    (by
+      intro b hb
+      rcases hb with rfl | hb
+      · exact ⟨by decide, by decide⟩
+      · simp only [Option.some.injEq] at hb
+        subst hb
+        exact ⟨by decide, by decide⟩)
+    (by decide)
+example : obsOf 4 (run srv {} hist₄).2 =
+    [.quiet, .ans (.res (.head [0xaa, 0xbb])), .quiet, .body [.errReset 7] none] := by decide +kernel
+example : obsOf 8 (run srv {} hist₄).2 = [.quiet, .ans (.res (.errStream 270)), .noHandle] := by decide +kernel
 end
 
 end H3.Props.C07
